@@ -489,15 +489,63 @@ DIGIT_CLASSES = [('0-9', 48, 57, 48), ('a-z', 97, 122, 87), ('A-Z', 65, 90, 55)]
 GAPS = [(0, 47), (58, 64), (91, 96), (123, 255)]
 
 
-def digit_class_hook(sink, rule, name, acc, classes, base_const=None, gaps=None):
+def carried_char(f, L):
+    """a scan loop that carries the current character in a variable (`c = *p++`): header phis (C, P) such
+    that on every incoming edge C is the byte loaded from P - 1.  Returns (C, P, [loads from P inside L])"""
+    def match(vc, vp, depth=0):
+        vc = strip(f, vc)
+        if vc.k != 'inst' or vp.k != 'inst' or depth > 4:
+            return False
+        ic, ip = f.insts[vc.id], f.insts[vp.id]
+        if ic.op == 'load' and ic.bits == 8 and ip.op == 'getelementptr':
+            st_ = ip.d['gep']['steps']
+            return ip.ops[0].key() == ic.ops[0].key() and len(st_) == 1 and st_[0]['v'].get('k') == 'ci' and \
+                st_[0]['v']['v'] * st_[0]['stride'] == 1
+        if ic.op == 'phi' and ip.op == 'phi' and ic.block is ip.block:
+            mp = dict(ip.incoming)
+            return all(bb in mp and match(v, mp[bb], depth + 1) for (bb, v) in ic.incoming)
+        return False
+    hdr = L['header']
+    for C in [i for i in hdr.insts if i.op == 'phi' and i.ty.get('k') == 'int']:
+        for P in [i for i in hdr.insts if i.op == 'phi' and i.ty.get('k') == 'ptr']:
+            mp = dict(P.incoming)
+            if all(bb in mp and match(v, mp[bb]) for (bb, v) in C.incoming):
+                loads = [i for b in L['blocks'] for i in b.insts if i.op == 'load' and i.bits == 8 and
+                         i.ops[0].k == 'inst' and i.ops[0].id == P.id]
+                return C, P, loads
+    return None
+
+
+def carried_lemma_hook(C):
+    """pre-hook for a load from P in a carried-character loop: C == s[P-1] (carried_char), so when the state
+    knows C != 0 the previous position was not the terminator and P is at most the terminator position"""
+    def hook(it, st, i, fn):
+        p = it.val(st, i.ops[0], fn)
+        c = it.val(st, iv(C), fn)
+        if not isinstance(p, PtrVal) or p.obj is None or not isinstance(c, IntVal):
+            return
+        o = st.objs.get(p.obj)
+        n = o.info.get('cstr_len') if o is not None else None
+        cu = st.as_u(c)
+        if n is not None and cu is not None and st.cons.entails_le(1, cu):
+            st.cons.add_le(p.off, n)
+    return hook
+
+
+def digit_class_hook(sink, rule, name, acc, classes, char_value=None, gaps=None):
     """pre-hook for the accumulation  acc*B + d : in every state that reaches it the character just read
-    (ghost last_ch) belongs to one of the digit classes, d is that class's closed form c - K and d < B"""
+    (ghost last_ch, or the SSA value char_value) belongs to one of the digit classes, d is that class's closed
+    form c - K and d < B"""
     gaps = GAPS if gaps is None else gaps
 
     def hook(it, st, i, fn):
         if it.recording > 0:
             return
-        ch = st.ghost.get('last_ch')
+        if char_value is not None:
+            cv = it.val(st, char_value, fn)
+            ch = st.force_u(cv) if isinstance(cv, IntVal) else None
+        else:
+            ch = st.ghost.get('last_ch')
         w = i.where()
         if ch is None:
             sink.inst(rule, name, 'digit-comes-from-the-character-just-read', False, w,
